@@ -29,7 +29,6 @@ Definition launch_params (c : pconf) : pconf := map (fun f => (f, get f c)) laun
 Definition model_launch_params (c : pconf) : pconf :=
   [(FExecutable, get FExecutable c); (FArgs, get FArgs c); (FEffEnv, get FEffEnv0 c);
    (FWorkingDir, get FWorkingDir c)].
-Definition launch_fields_noenv : list field := [FExecutable; FArgs; FWorkingDir].
 
 Definition eq_on (fs : list field) (a b : pconf) : bool := compare_with fs a b.
 Definition oeqN := option_eqb N.eqb.
@@ -156,25 +155,25 @@ Definition model_diag (c : ocase) : list (nat * N) := steps_model_diag 0 (mkSt [
      8 stored configuration differs from the new one on a launch-relevant field
      9 something happened to a name that is in neither project
      10 only the project-level environment changed and the process was not relaunched with it *)
-Definition launch_ok (fs : list field) (n : N) (c' : pconf) (li' : option N) (maxb : N)
+Definition launch_ok (expect : pconf -> pconf) (n : N) (c' : pconf) (li' : option N) (maxb : N)
                      (tail : list event) : bool :=
   if deferred c' then match tail, li' with [], None => true | _, _ => false end
   else match li', tail with
        | Some j, [ELaunch m j' p] =>
-           N.eqb m n && N.eqb j j' && N.ltb maxb j && eq_on fs p (launch_params c')
+           N.eqb m n && N.eqb j j' && N.ltb maxb j && eq_on launch_fields p (expect c')
        | _, _ => false
        end.
 
-Definition replaced_ok (fs : list field) (n : N) (c' : pconf) (li li' : option N) (maxb : N)
+Definition replaced_ok (expect : pconf -> pconf) (n : N) (c' : pconf) (li li' : option N) (maxb : N)
                        (ev : list event) : bool :=
   match li with
   | Some i =>
       match ev with
       | EStop a b :: EEnd a' b' :: tail =>
-          N.eqb a n && N.eqb b i && N.eqb a' n && N.eqb b' i && launch_ok fs n c' li' maxb tail
+          N.eqb a n && N.eqb b i && N.eqb a' n && N.eqb b' i && launch_ok expect n c' li' maxb tail
       | _ => false
       end
-  | None => launch_ok fs n c' li' maxb ev
+  | None => launch_ok expect n c' li' maxb ev
   end.
 
 Definition mon_name (prev : list (N * pconf)) (before : list (N * N)) (o : ostep) (n : N) : nat :=
@@ -199,20 +198,21 @@ Definition mon_name (prev : list (N * pconf)) (before : list (N * N)) (o : ostep
   | None, Some c' =>
       if negb listed then 1
       else if negb (info_ok c') then 8
-      else if negb (replaced_ok launch_fields n c' li li' maxb ev) then
-        (if replaced_ok launch_fields_noenv n c' li li' maxb ev then 10 else 7)
+      else if negb (replaced_ok launch_params n c' li li' maxb ev) then
+        (if replaced_ok model_launch_params n c' li li' maxb ev then 10 else 7)
       else if st_is (Some 1%N) then 0 else 2
   | Some c, Some c' =>
       let kept := oeqN li' li && list_eqb event_eqb ev [] in
-      let replaced := replaced_ok launch_fields n c' li li' maxb ev in
-      let replaced_stale_env := replaced_ok launch_fields_noenv n c' li li' maxb ev in
+      let replaced := replaced_ok launch_params n c' li li' maxb ev in
+      (* replaced, but with the project-level environment the supervisor was started with *)
+      let replaced_stale_env := replaced_ok model_launch_params n c' li li' maxb ev in
       if negb listed then 1
       else if negb (info_ok c') then 8
       else if eq_on all_fields c c' then
         (if kept then (if st_is None then 0 else 2) else 3)
       else if negb (eq_on lr_plus c c') then
         (if replaced then (if st_is (Some 3%N) then 0 else 2)
-         else if eq_on launch_relevant c c' || replaced_stale_env then 10 else 4)
+         else if (eq_on launch_relevant c c' && kept) || replaced_stale_env then 10 else 4)
       else if eq_on noncosmetic c c' then
         (if kept && st_is None then 0 else if replaced && st_is (Some 3%N) then 5 else 4)
       else
